@@ -5,8 +5,10 @@
    One action per public in-place call, including the aliasing calls the property names explicitly: a string
    assigned from / appended with itself or a piece of itself (s = s, s = *s + k, s += s, s += *s + k, s = s + s,
    s = s.substring(..), s = s.replace(..)).  Storage (inline 16 bytes / heap, capacity) is not part of the model:
-   the only trace of it is the ghost variable hw, the largest length class a variable has reached, which is kept in
-   the VIEW so that TLC also reaches "short string in a buffer that has been large" states.
+   the only trace of it is the ghost variable hw, the largest length a variable has reached or reserved (a hint of
+   how large its buffer is - buffers grow and are not given back), whose class is kept in the VIEW so that TLC also
+   reaches "short string in a buffer that has been large" states.  The large-jump exploration (MC_ByteStringBig.tla) aims its growth requests relative to hw:
+   one call that asks for 1.5x, 2x, 3x .. the largest size so far, on both sides of the 1 KiB growth-policy switch.
 
    hist records the calls with their arguments; hz collects spec-level hazard tags of the history (used to match
    known findings).  The module is the oracle for both bindings:
@@ -30,8 +32,10 @@ Vars == 1..NV
 Lit(n, fam) == IF fam = 0 THEN [i \in 1..n |-> 97 + ((i - 1) % 26)]
                ELSE [i \in 1..n |-> IF i = 1 \/ i = n THEN 32 ELSE IF i % 5 = 0 THEN 44 ELSE 65 + (i % 26)]
 Lits == {Lit(n, f) : n \in Lens, f \in {0, 1}}
-\* length classes: inline (< 16), first heap block (16..23), up to the first doubling (24..47), beyond
-Cls(n) == IF n < 16 THEN 0 ELSE IF n < 24 THEN 1 ELSE IF n < 48 THEN 2 ELSE 3
+\* length classes: inline (< 16), first heap block (16..23), up to the first doubling (24..47), beyond; then the
+\* lengths whose buffer (bytes + NUL) reaches 1 KiB (the growth-policy switch of resize()), 2 KiB, 4 KiB
+Cls(n) == IF n < 16 THEN 0 ELSE IF n < 24 THEN 1 ELSE IF n < 48 THEN 2 ELSE IF n < 1023 THEN 3
+          ELSE IF n < 2047 THEN 4 ELSE IF n < 4095 THEN 5 ELSE 6
 
 Init == /\ val = [x \in Vars |-> <<>>]
         /\ hw = [x \in Vars |-> 0]
@@ -41,11 +45,12 @@ Init == /\ val = [x \in Vars |-> <<>>]
 Log(rec, tags) == /\ hist' = IF KeepHist THEN Append(hist, rec) ELSE <<rec>>
                   /\ hz' = IF KeepHist THEN hz \cup tags ELSE tags
 \* variable x gets the new value s2 through an in-place call
-Set(x, s2, rec, tags) ==
-    /\ Len(s2) <= MaxTotal
+SetRoom(x, s2, room, rec, tags) ==
+    /\ Len(s2) <= MaxTotal /\ room <= MaxTotal
     /\ val' = [val EXCEPT ![x] = s2]
-    /\ hw' = [hw EXCEPT ![x] = IF Cls(Len(s2)) > @ THEN Cls(Len(s2)) ELSE @]
+    /\ hw' = [hw EXCEPT ![x] = IF room > @ THEN room ELSE @]
     /\ Log(rec, tags)
+Set(x, s2, rec, tags) == SetRoom(x, s2, Len(s2), rec, tags)
 V(x) == val[x]
 N(x) == Len(val[x])
 KSet(x) == ({0, 1, N(x) - 1, N(x)} \cup Pieces) \cap 0..N(x)
@@ -72,6 +77,19 @@ AppendPiece(x, k) == /\ k \in 0..N(x)                                           
 AppendChar(x, c) == Set(x, Append(V(x), c), [op |-> "appendChar", x |-> x, c |-> c], {})          \* x += 'c'
 AppendInt(x, n) == Set(x, V(x) \o SText(IF n < 0 THEN Neg(NatLimbs(0 - n, 2)) ELSE NatLimbs(n, 2)),        \* x << n  (|n| < 2^31)
                        [op |-> "appendInt", x |-> x, n |-> n], {})
+(* one call that changes the length by a large amount (the arguments stay small in the history): the growth policy
+   of resize() - doubling, or exactly the request when that is more; realloc instead of malloc+copy from 1 KiB on *)
+AssignRepeat(x, c, n) == /\ n >= 0                                                                \* x = String::repeat(c, n)
+                         /\ Set(x, Rep(c, n), [op |-> "assignRepeat", x |-> x, c |-> c, n |-> n], {})
+AppendRepeat(x, c, n) == /\ n >= 0                                                                \* x += String::repeat(c, n)
+                         /\ Set(x, V(x) \o Rep(c, n), [op |-> "appendRepeat", x |-> x, c |-> c, n |-> n], {})
+AssignN(x, s, n) == /\ n \in 0..Len(s)                                                            \* x.assign(s, n): the first n bytes
+                    /\ Set(x, Sub(s, 0, n), [op |-> "assignN", x |-> x, s |-> s, n |-> n], {})
+AppendN(x, s, n) == /\ n \in 0..Len(s)                                                            \* x.append(s, n)
+                    /\ Set(x, V(x) \o Sub(s, 0, n), [op |-> "appendN", x |-> x, s |-> s, n |-> n], {})
+\* resize(n, true, false): room for n bytes, value and length unchanged
+Reserve(x, n) == /\ n >= 0
+                 /\ SetRoom(x, V(x), n, [op |-> "reserve", x |-> x, n |-> n], {})
 (* other in-place calls *)
 Trim(x) == Set(x, Trimmed(V(x)), [op |-> "trim", x |-> x], {})
 ReplaceMe(x, a, b) == Set(x, ReplaceChar(V(x), a, b), [op |-> "replaceme", x |-> x, a |-> a, b |-> b], {})
@@ -120,9 +138,10 @@ Identities == [][(hist' # hist /\ hist' # <<>>) =>
                    /\ (r.op = "appendVar" /\ r.x = r.y) => Len(val'[r.x]) = 2 * Len(val[r.x])
                    /\ r.op = "assignPiece" => val'[r.x] = SubSeq(val[r.x], r.k + 1, Len(val[r.x]))
                    /\ r.op = "assignVar" => val'[r.x] = val[r.y]]_vars
-HwOK == \A x \in Vars : hw[x] >= Cls(N(x))
+HwOK == \A x \in Vars : hw[x] >= N(x)
 
-View == <<val, hw, Len(hist), hz>>
+View == <<val, [x \in Vars |-> Cls(hw[x])], Len(hist), hz>>
+BigView == <<val, hw, Len(hist), hz>>                    \* exact high-water length (MC_ByteStringBig)
 Emit == PrintT(ToJson([hist |-> hist', exp |-> [x \in Vars |-> val'[x]], hz |-> hz',
                        cmp |-> IF NV >= 2 THEN Compare(val'[1], val'[2]) ELSE 0]))
 ===============================================================================
